@@ -50,6 +50,8 @@ def c18(run):
     P = run.prog('rel')
     r_allocnull.run(run, P)
     run.min_instances('R-ALLOC-NULL', 150)
+    from rules import r_ownpdu
+    r_ownpdu.run(run, P)
     run.assumptions = ASSUME_COMMON + ["every allocation funnels through coap_malloc_type/coap_realloc_type/malloc/calloc/realloc/strdup",
                                        "'the next operation succeeds' is NOT decided"]
     return run.finish(
